@@ -153,7 +153,7 @@ def conflicts(net, op):
 # bookkeeping (what the structure is after the call)
 # ---------------------------------------------------------------------------
 
-def apply(net, op):
+def apply(net, op, residue=False):
     """-> (outcome, net')   outcome in {'ok', 'raise'}; net is not modified."""
     s = net.copy()
     k = op[0]
@@ -219,12 +219,25 @@ def apply(net, op):
         P, n = op[2], wi['name']
     else:
         P, n = op[2], op[3]
+    # (since fix 1f602d8 in /repo the destination is checked before anything is touched: a refused call has no
+    # side effect, and only the wire's own table entry is removed.  If an implementation leaves the old residue -
+    # wire dropped from its table, already carrying the new name - check_transition reports the divergence.)
     tab = s.objs[wi['parent']]['wires']
-    if wi['name'] not in tab:
-        return 'raise', s                           # nothing registered under that name: refused, no change
-    del tab[wi['name']]                             # (whoever is registered there)
+    if residue:
+        # the behaviour before that fix, kept so that an implementation that regresses to it is still followed
+        # (and the silent eviction on the retry is reported): mutate first, validate afterwards
+        if wi['name'] not in tab:
+            return 'raise', s
+        del tab[wi['name']]
+        wi['name'], wi['parent'] = n, P
+        if n in s.objs[P]['wires']:
+            return 'raise', s
+        s.objs[P]['wires'][n] = w
+        return 'ok', s
+    if s.objs[P]['wires'].get(n, w) != w:
+        return 'raise', s                           # destination name taken by another wire: refused, no change
+    if tab.get(wi['name']) == w:
+        del tab[wi['name']]
     wi['name'], wi['parent'] = n, P
-    if n in s.objs[P]['wires']:
-        return 'raise', s
     s.objs[P]['wires'][n] = w
     return 'ok', s
